@@ -94,6 +94,7 @@ def loopy_bodies(prog):
 class TotalWorld(OracleWorld):
     max_steps = 400000
     inline_depth = 30
+    lazy_discriminant = True
 
     def __init__(self, prog, roots, entry):
         OracleWorld.__init__(self, prog)
@@ -145,27 +146,104 @@ class TotalWorld(OracleWorld):
     def loop_policy(self, body, head):
         return "widen"
 
+    def _widen_scalar(self, st, vals, lty, name):
+        """Widen integer values; keeps the candidate invariants that hold for all of them."""
+        w = Sym(name, lty)
+        cands = []
+        if all(self.lt_count(st, v) for v in vals):
+            cands.append("ltc")
+            st.facts[("ltc", w.name)] = 0
+        provs = {self.provenance(v) for v in vals}
+        provs.discard(("const0",))
+        if len(provs) == 1:
+            p = provs.pop()
+            if p[0] in ("byteoff", "charidx"):
+                w = Sym((p[0], p[1], ("w", self.n(st))), lty)
+                if "ltc" in cands:
+                    st.facts[("ltc", w.name)] = 0
+                st.facts[("le", w.name, ("len", p[1]))] = True
+                cands.append("prov:%s" % p[0])
+        return w, cands
+
+    def _widen_struct(self, st, vals, ty, hint):
+        """Component-wise widening of tuples and Options (None ⊔ Some(x) is an Option of unknown variant
+        whose payload, once inspected, is the widened x: see fresh_field)."""
+        ty = ty.strip()
+        if ty in ip.INT_BITS and ty not in ("bool", "char"):
+            if all(isinstance(v, (I, Sym)) for v in vals):
+                return self._widen_scalar(st, vals, ty, ("w", hint, self.n(st)))[0]
+            return None
+        if ty.startswith("(") and ty.endswith(")"):
+            parts = ty_.split_top(ty[1:-1])
+            if all(isinstance(v, Tup) and len(v.fields) == len(parts) for v in vals):
+                out = []
+                for i, pt in enumerate(parts):
+                    c = self._widen_struct(st, [v.fields[i] for v in vals], pt, (hint, i))
+                    if c is None:
+                        c = ty_.fresh(self.prog, pt, ("w", hint, i, self.n(st)))
+                    out.append(c)
+                return Tup(tuple(out))
+            return None
+        head, args = ty_.generic_args(ty)
+        if head == ip.OPTION and args and all(isinstance(v, Adt) and v.ty == ip.OPTION for v in vals):
+            somes = [v.fields[0] for v in vals if v.variant == 1]
+            if not somes:
+                return None
+            payload = self._widen_struct(st, somes, args[0], (hint, "some"))
+            if payload is None:
+                return None
+            if len(somes) == len(vals):
+                return ip.some(payload)
+            w = Sym(("w-opt", hint, self.n(st)), ty)
+            st.ext["tpl:%r" % (w.name,)] = payload
+            return w
+        return None
+
+    def fresh_field(self, st, sym, variant, i, ty):
+        tpl = st.ext.get("tpl:%r" % (sym.name,))
+        if tpl is not None and variant == 1 and i == 0:
+            return tpl
+        return OracleWorld.fresh_field(self, st, sym, variant, i, ty)
+
+    def _inv_ok(self, st, tpl, arr):
+        """Does the arriving value satisfy what the widened value promises (provenance, `< count`)?"""
+        if isinstance(tpl, Sym) and isinstance(tpl.name, tuple) and tpl.name and tpl.name[0] == "w-opt":
+            if arr == tpl:
+                return True
+            payload = st.ext.get("tpl:%r" % (tpl.name,))
+            if isinstance(arr, Adt) and arr.ty == ip.OPTION:
+                return arr.variant == 0 or self._inv_ok(st, payload, arr.fields[0])
+            return False
+        if isinstance(tpl, Adt) and isinstance(arr, Adt) and tpl.ty == arr.ty:
+            return tpl.variant == arr.variant and all(self._inv_ok(st, a, b) for a, b in zip(tpl.fields, arr.fields))
+        if isinstance(tpl, Tup) and isinstance(arr, Tup) and len(tpl.fields) == len(arr.fields):
+            return all(self._inv_ok(st, a, b) for a, b in zip(tpl.fields, arr.fields))
+        if isinstance(tpl, Sym) and tpl.ty in ip.INT_BITS and tpl.ty not in ("bool", "char"):
+            pt = self.provenance(tpl)
+            if pt[0] in ("byteoff", "charidx"):
+                pa = self.provenance(arr)
+                if pa != ("const0",) and pa[:2] != pt[:2]:
+                    return False
+            if st.facts.get(("ltc", tpl.name)) is not None and not self.lt_count(st, arr):
+                return False
+            return True
+        return True
+
     def widen(self, m, st, fr, local, old, new, n):
         lty = fr.body.locals[local]["ty"]
-        w = ty_.fresh(self.prog, lty, ("w", fr.uid, local, n, self.n(st)))
         ev = {"fn": fr.body.id, "head": fr.bb, "local": fr.body.local_name(local), "ty": lty}
+        vals = [v for v in (old, new) if v is not m._MISSING]
+        if not (lty in ip.INT_BITS) and len(vals) == 2:
+            sw = self._widen_struct(st, vals, lty, (fr.uid, local, n))
+            if sw is not None:
+                st.ext["inv:%r" % ((fr.uid, local),)] = ("struct",)
+                ev["invariants"] = ["component-wise"]
+                self.loop_evidence.setdefault((fr.body.id, fr.bb), []).append(ev)
+                return sw
+        w = ty_.fresh(self.prog, lty, ("w", fr.uid, local, n, self.n(st)))
         if isinstance(w, Sym) and lty in ip.INT_BITS and lty != "bool" and lty != "char":
             # candidate invariants that held for both the first and the arriving value
-            cands = []
-            vals = [v for v in (old, new) if v is not m._MISSING]
-            if all(self.lt_count(st, v) for v in vals):
-                cands.append("ltc")
-                st.facts[("ltc", w.name)] = 0
-            provs = {self.provenance(v) for v in vals}
-            provs.discard(("const0",))
-            if len(provs) == 1:
-                p = provs.pop()
-                if p[0] in ("byteoff", "charidx"):
-                    w = Sym((p[0], p[1], ("w", self.n(st))), lty)
-                    if "ltc" in cands:
-                        st.facts[("ltc", w.name)] = 0
-                    st.facts[("le", w.name, ("len", p[1]))] = True
-                    cands.append("prov:%s" % p[0])
+            w, cands = self._widen_scalar(st, vals, lty, w.name)
             st.ext["inv:%r" % ((fr.uid, local),)] = tuple(cands)
             ev["invariants"] = cands
             # step of the counter, for the termination argument
@@ -185,7 +263,11 @@ class TotalWorld(OracleWorld):
             bn, kn = lin_parts(arriving)
             if ba == bn:
                 ev["step"] = kn - ka
-        if cands:
+        if cands == ("struct",):
+            if not self._inv_ok(st, assumed, arriving):
+                raise AnalysisError("the widened value of `%s` is not an invariant of the loop in %s (provenance of a component changes)" % (fr.body.local_name(local), fr.body.id))
+            ev["invariants_hold"] = ["component-wise"]
+        elif cands:
             for c in cands:
                 if c == "ltc" and not self.lt_count(st, arriving):
                     raise AnalysisError("loop invariant `%s < chars().count()` is not inductive in %s" % (fr.body.local_name(local), fr.body.id))
@@ -431,22 +513,59 @@ class TotalWorld(OracleWorld):
             return self.tag_of(it.data[0])
         return ("?", self.n(st))
 
+    def _elem(self, m, st, it):
+        """A fresh element of an iterator expression over a string: what one `next()` may yield."""
+        it = deref_all(m, st, it)
+        if isinstance(it, Opq) and it.kind in ("skip", "rev"):
+            return self._elem(m, st, it.data[0])
+        if isinstance(it, Opq) and it.kind == "chars":
+            return Sym(("ch", self.n(st)), "char")
+        if isinstance(it, Opq) and it.kind == "char_indices":
+            tag = self.tag_of(it.data[0])
+            idx = Sym(("byteoff", tag, self.n(st)), "usize")
+            st.facts[("le", idx.name, ("len", tag))] = True
+            return Tup((idx, Sym(("ch", self.n(st)), "char")))
+        if isinstance(it, Opq) and it.kind == "enumerate":
+            tag = self._iter_tag(m, st, it)
+            idx = Sym(("charidx", tag, self.n(st)), "usize")
+            st.facts[("ltc", idx.name)] = 0
+            st.facts[("le", idx.name, ("len", tag))] = True  # index < chars().count() <= len()
+            return Tup((idx, self._elem(m, st, it.data[0])))
+        return None
+
     def enumerate_next(self, m, st, itref):
         if self.decide(st, "next", ["None", "Some"]) == "None":
             return ip.none()
-        tag = self._iter_tag(m, st, itref)
-        idx = Sym(("charidx", tag, self.n(st)), "usize")
-        st.facts[("ltc", idx.name)] = 0
-        st.facts[("le", idx.name, ("len", tag))] = True  # index < chars().count() <= len()
-        return ip.some(Tup((idx, Sym(("ch", self.n(st)), "char"))))
+        return ip.some(self._elem(m, st, itref))
 
     def char_indices_next(self, m, st, itref):
         if self.decide(st, "next", ["None", "Some"]) == "None":
             return ip.none()
-        tag = self._iter_tag(m, st, itref)
-        idx = Sym(("byteoff", tag, self.n(st)), "usize")
-        st.facts[("le", idx.name, ("len", tag))] = True
-        return ip.some(Tup((idx, Sym(("ch", self.n(st)), "char"))))
+        return ip.some(self._elem(m, st, itref))
+
+    def iter_rev(self, m, st, it):
+        return Opq("rev", (it,))
+
+    def skip_next(self, m, st, itref):
+        return self.iter_next(m, st, itref, deref_all(m, st, itref))
+
+    def iter_next(self, m, st, ref, it):
+        e = self._elem(m, st, it)
+        if e is None:
+            return None
+        if self.decide(st, "next", ["None", "Some"]) == "None":
+            return ip.none()
+        return ip.some(e)
+
+    def split_at(self, m, st, s, mid):
+        """str::split_at panics unless `mid` is on a char boundary of s: a byte offset of s, 0 or its length."""
+        self.visited_sites.add(self.site(st))
+        tag = self.tag_of(s)
+        okk, p = self.bound_ok(st, mid, tag)
+        if not okk:
+            self.finding(st, "slice-bound", "split_at position is %s: not a byte offset of the split string (may fall inside a multi-byte character or beyond the end)" % PROV_WORDS.get(p[0], p[0]))
+        key = ("int", mid.v) if isinstance(mid, I) else ("val", mid)
+        return Tup((Ref(("val", Str(("slice", tag, ("int", 0), key)))), Ref(("val", Str(("slice", tag, key, ("end",)))))))
 
     def iter_nth(self, m, st, itref, n):
         if self.decide(st, "nth", ["None", "Some"]) == "None":
@@ -472,7 +591,8 @@ class TotalWorld(OracleWorld):
             b, k = lin_parts(pos)
             old = st.facts.get(("ltc", b))
             st.facts[("ltc", b)] = k if old is None else max(old, k)
-        return ip.some(Sym(("ch", self.n(st)), "char"))
+        e = self._elem(m, st, it)
+        return ip.some(e if e is not None else Sym(("ch", self.n(st)), "char"))
 
     def str_find(self, m, st, s, pred):
         tag = self.tag_of(s)
